@@ -27,6 +27,7 @@ RULE = (
 ASSUMPTIONS = [
     "L1: real parameters/data; generic data from VERIF_SEED; equivariance tolerance 2e-3 with confirm on two further inputs",
     "optimisers: optax sgd(0.05), adam(0.02), adamw(0.02, weight_decay=0.1); sequences of length <= 3 (quick) / 4 (thorough) over two fixed mini-batches of different content; batch size 2; one device (L4)",
+    "U-Net states: a mismatch is only a verdict if the max-pool uniqueness premise (top two pixel norms of every pooled patch differ by > 1e-3 relative) holds on the probe input",
     "an optimiser or loss crash is reported as a disabled transition, not a violation (the property speaks of the returned model)",
 ]
 
@@ -138,8 +139,11 @@ def run_case(case, seed):
         # (iii) equivariance of the current model, every g, every layer
         w = mlh.model_equivariance(m, xprobe, in_order, grp, D, flags)
         maxdef[0] = max(maxdef[0], w["e"] if w["e"] <= TOL else 0.0)
-        if w["e"] > TOL:
-            confirmed = all(mlh.model_equivariance(m, mlh.make_input(in_sig, D, sp, rng_for(seed, "C09confirm", i, ckey), integer=False), in_order, grp, D, flags)["e"] > TOL for i in range(2))
+        if w["e"] > TOL and w["pool_margin"] <= 1e-3:
+            counters["tie_skips"] = counters.get("tie_skips", 0) + 1  # max-pool uniqueness premise fails: no verdict
+        elif w["e"] > TOL:
+            again = [mlh.model_equivariance(m, mlh.make_input(in_sig, D, sp, rng_for(seed, "C09confirm", i, ckey), integer=False), in_order, grp, D, flags) for i in range(2)]
+            confirmed = all(a["e"] > TOL and a["pool_margin"] > 1e-3 for a in again)
             if confirmed:
                 g = w["g"]
                 kind = "reflection" if G.det(g) < 0 else "rotation"
